@@ -610,6 +610,9 @@ def main():
         vlib.proof_phase(ctx)
         # the same theorems over the bodies translated from static_list.hpp on this run (Gen/GenStaticList.v)
         vlib.proof_phase_extra(ctx, 'Properties_C18_source')
+        # the registration objects' constructors / destructors as translated from core.hpp / detail.hpp (Gen/GenReg.v):
+        # object lifetimes -> legal catalog operations -> exactly the live objects
+        vlib.proof_phase_extra(ctx, 'Properties_reg_source')
     model, log1 = vlib.ocaml_driver('catalog_model', 'Extract/ExtractCatalog.vo', ['ocaml/catalog_driver.ml'])
     impl, log2 = vlib.build_cpp('h3_catalog', ['harness/h3/catalog_driver.cpp'])
     objs, log3 = vlib.build_cpp('h3_catalog_objects', ['harness/h3/catalog_objects.cpp'], flags=OBJ_FLAGS)
